@@ -235,14 +235,16 @@ pub fn run(g: &mut Global) {
     // counter or an occasional re-synchronisation that reset() forgets about would fire during warm-up
     let seed = g.seed;
     const LENS: [usize; 6] = [255, 256, 257, 65_535, 65_536, 65_537];
+    // every power of two from 2^8 to 2^16 (+1): the reset happens 0..7 inputs before it
+    const POW: [usize; 9] = [257, 513, 1025, 2049, 4097, 8193, 16_385, 32_769, 65_537];
     g.exhaustive(
         "counter_wrap",
-        22 * 2 * 6 * 8,
+        22 * 2 * 9 * 8,
         &move |i| {
             let d = (i % 8) as usize;
             let r = i / 8;
-            let l = LENS[(r % 6) as usize];
-            let r = r / 6;
+            let l = POW[(r % 9) as usize];
+            let r = r / 9;
             let n = [3usize, 6][(r % 2) as usize];
             let kind: Kind = ALL_KINDS[(r / 2) as usize];
             let mut st = seed ^ (i + 1).wrapping_mul(0xD6E8FEB86659FD93);
